@@ -1,7 +1,7 @@
 SPECIFICATION Spec
 CONSTANTS
   MaxNodes = 4
-  MaxTmpl = 2
-  Emit = 3
+  MaxTmpl = 3
+  Emit = 0
 INVARIANTS InvStaticNN InvStaticN InvIdentity InvCounts InvFunctional InvFunctionalN InvStepLocal InvEmit
 CHECK_DEADLOCK FALSE
